@@ -28,6 +28,10 @@ var log = logging.Logger("dt_graphsync")
 // cancelled.
 const maxGSCancelWait = time.Second
 
+// After graphsync's Request call has returned, the maximum time to wait for the
+// outgoing request hook to report the request as opened.
+const maxGSOpenedWait = 5 * time.Second
+
 var defaultSupportedExtensions = []graphsync.ExtensionName{
 	extension.ExtensionDataTransfer1_1,
 }
@@ -969,6 +973,12 @@ func (c *dtChannel) open(
 		// Wait for the cancel request method to complete
 		select {
 		case err = <-errch:
+		case <-time.After(maxGSCancelWait):
+			// Fail-safe: graphsync may never report the cancel as done (for
+			// example when the peer went away); the channel lock is held
+			// here, so do not wait for it indefinitely
+			log.Warnf("%s: gave up waiting for graphsync to cancel the previous request", chid)
+			err = nil
 		case <-ctx.Done():
 			err = errors.New("timed out waiting for graphsync request to be cancelled")
 		}
@@ -1011,6 +1021,12 @@ func (c *dtChannel) open(
 		// Mark the channel as open and save the Graphsync request key
 		c.isOpen = true
 		c.requestID = &requestID
+	case <-time.After(maxGSOpenedWait):
+		// Fail-safe: graphsync runs the outgoing request hook before Request
+		// returns. If the hook has still not reported the request as opened,
+		// graphsync ended the request without running it (for example because
+		// the peer went away); the channel lock is held here, so give up
+		return nil, fmt.Errorf("%s: graphsync did not open the request", chid)
 	}
 
 	return &gsReq{
@@ -1178,9 +1194,18 @@ func (c *dtChannel) close(ctx context.Context) error {
 	}
 
 	// Wait for the cancel message to complete
+	return waitForCancel(ctx, c.channelID, errch)
+}
+
+// waitForCancel waits for graphsync to confirm a cancel, but not indefinitely:
+// graphsync may never report the cancel as done (for example when the peer
+// went away), and closing or shutting down a channel must still return
+func waitForCancel(ctx context.Context, chid datatransfer.ChannelID, errch chan error) error {
 	select {
 	case err := <-errch:
 		return err
+	case <-time.After(maxGSCancelWait):
+		return fmt.Errorf("%s: gave up waiting for graphsync to cancel the request", chid)
 	case <-ctx.Done():
 		return ctx.Err()
 	}
@@ -1267,12 +1292,7 @@ func (c *dtChannel) shutdown(ctx context.Context) error {
 	c.lk.Unlock()
 
 	// Wait for the cancel message to complete
-	select {
-	case err := <-errch:
-		return err
-	case <-ctx.Done():
-		return ctx.Err()
-	}
+	return waitForCancel(ctx, c.channelID, errch)
 }
 
 // Cancel the graphsync request.
